@@ -310,7 +310,9 @@ def same_values(a, b):
     return True
 
 
-def check_roundtrip(out, case, t, text, what):
+def check_roundtrip(out, case, t, text, what, spec=None):
+    """spec: the generator's own description of the table (names / units in column order); when given, the expected
+    header fields come from it, not from the table"""
     from pdtable.io.json import json_data_to_table
     try:
         with warnings.catch_warnings():
@@ -322,6 +324,11 @@ def check_roundtrip(out, case, t, text, what):
         return None
     fields = {"name": (t2.name, t.name), "destinations": (sorted(t2.metadata.destinations), sorted(t.metadata.destinations)),
               "columns": (list(t2.column_names), list(t.column_names)), "units": (list(t2.units), list(t.units))}
+    if spec is not None:
+        fields["name"] = (t2.name, spec["name"])
+        fields["destinations"] = (sorted(t2.metadata.destinations), sorted(spec["dests"]))
+        fields["columns"] = (list(t2.column_names), [c[0] for c in spec["cols"]])
+        fields["units"] = (list(t2.units), [c[1] for c in spec["cols"]])
     for k, (got, exp) in fields.items():
         if got != exp:
             out.fail(f"{what}: round trip through JSON changed the {k}", case, got, exp, key="roundtrip:" + k)
@@ -560,7 +567,10 @@ def run(tier, seed, model_ok, translator, search=False):
                 "microsecond and nanosecond datetimes, NaT, zero rows / columns, unicode and JSON-hostile text, names and destinations) "
                 "-> table_to_json_data -> json.dumps(allow_nan=False) -> json.loads -> json_data_to_table; (c) reader-produced "
                 "JsonData (make_table_json_data and parse_blocks(to='jsondata')) of well-formed grids, text and native cells, "
-                "both orientations; (d) malformed JsonData into json_data_to_table (model vs code on the exception class). "
+                "both orientations; (d) malformed JsonData into json_data_to_table (model vs code on the exception class); "
+                "(e) edit-then-convert histories: a table is consulted, its columns are reordered in place on t.df (pop / "
+                "insert / sort_index, same names and dtypes, differing units), then the whole trip, expected units per "
+                "column name from the generator. "
                 "Non-trivial: a table with at least one column and one row; distinct by content.")
     rng = make_rng(seed, "C08")
     thorough = tier == "thorough" or search
@@ -631,6 +641,18 @@ def run(tier, seed, model_ok, translator, search=False):
     out.evaluations += 1
     out.count("negative (text ending in NUL): " + ("comes back without the NUL" if back == "a" else "comes back as " + repr(back)))
 
+    # (e) edit then convert: consult the table, reorder its columns in place, then the whole JSON trip; the expected
+    #     unit of every column (by name) and the column order come from the generator, never from the table
+    n_e = 1500 if thorough else 160
+    done = 0
+    while done < n_e:
+        spec = gen_spec(rng)
+        if len(spec["cols"]) < 2 or len({c[1] for c in spec["cols"]}) < 2:
+            continue
+        done += 1
+        case = {"seed": seed, "stream": "e", "index": done, "table": spec_case(spec)}
+        run_table_case(out, rng, spec, case, model, edit=True)
+
     # (c) reader-produced JsonData
     n_c = 7000 if thorough else 600
     for i in range(n_c):
@@ -691,9 +713,46 @@ def add_case(out, case, key, nontrivial):
         out.samples.append(case)
 
 
-def run_table_case(out, rng, spec, case, model):
+def reorder_in_place(rng, t, spec, how=None):
+    """consult the table once through the facade, then reorder the columns of its backing frame IN PLACE (same names,
+    same dtypes); -> (how, the generator's spec in the new column order)"""
+    _ = (list(t.units), list(t.column_names), str(t))          # the table has been looked at: frame state is cached
+    names = [c[0] for c in spec["cols"]]
+    how = how or rng.choice(["pop to end", "pop to front", "sort_index", "reversed"])
+    if how == "pop to end":
+        nm = names[rng.randrange(len(names) - 1)]      # any column but the last moves to the end
+        col = t.df.pop(nm)
+        t.df[nm] = col
+    elif how == "pop to front":
+        nm = names[-1]
+        col = t.df.pop(nm)
+        t.df.insert(0, nm, col)
+    elif how == "sort_index":
+        t.df.sort_index(axis=1, inplace=True)
+    else:
+        for nm in reversed(names[:-1]):
+            col = t.df.pop(nm)
+            t.df[nm] = col
+    order = [str(c) for c in t.df.columns]
+    by_name = {c[0]: c for c in spec["cols"]}
+    return how, dict(spec, cols=[by_name[n] for n in order])
+
+
+def run_table_case(out, rng, spec, case, model, edit=None):
     from pdtable.io.json import table_to_json_data, json_data_to_table
     t = build_table(rng, spec)
+    if edit is not None:
+        try:
+            with warnings.catch_warnings():
+                warnings.simplefilter("ignore")
+                how, spec = reorder_in_place(rng, t, spec, None if edit is True else edit)
+        except Exception as e:  # noqa: BLE001
+            out.fail("reordering the columns of a table's frame in place raises", case, type(e).__name__ + ": " + str(e)[:100],
+                     None, key="reorder_exc:" + type(e).__name__)
+            return
+        case["edit"] = how
+        case["after"] = spec_case(spec)
+        out.count("e:" + how)
     nontrivial = bool(spec["cols"]) and bool(spec["cols"][0][3])
     add_case(out, case, case.get("table"), nontrivial)
     kinds = [c[2] for c in spec["cols"]]
@@ -768,7 +827,7 @@ def run_table_case(out, rng, spec, case, model):
     model(to_table_op(j_back), case, impl, "json_data_to_table")
     if has_nat:
         return
-    check_roundtrip(out, case, t, json.dumps(j_back), "table_to_json_data")
+    check_roundtrip(out, case, t, json.dumps(j_back), "table_to_json_data", spec=spec)
     # missing numbers travel as null
     for nm, unit, kind, vals in spec["cols"]:
         if kind == "num":
@@ -954,7 +1013,7 @@ def replay(rep):
         spec = spec_from_case(inp["table"])
         rng = make_rng(int(inp.get("seed", 0)), "C08-replay")
         for _ in range(4):           # the dtype choices of build_table are random: try a few
-            run_table_case(out, rng, spec, dict(inp), noop)
+            run_table_case(out, rng, spec, dict(inp), noop, edit=inp.get("edit"))
     elif "cells" in inp:
         from harness.props.c02 import common_rows_from_json
         grid = common_rows_from_json(inp["cells"])
